@@ -13,6 +13,9 @@ from vf import common, zcheck
 
 WORDS = ["?eq", "!eq", "?ne", "!ne", "?lt", "!lt", "?gt", "!gt", "?le", "!le", "?ge", "!ge"]
 INFIX = {"==": "?eq", "!=": "?ne", "<": "?lt", ">": "?gt", "<=": "?le", ">=": "?ge"}
+# infix forms with one operand left out (it is the value on top of the stack): `A (< B)` and `B (A < )` both say A < B
+HALF_INFIX = {"<": "?lt", ">=": "?ge"}
+HALF_FORMS = ["?(|A B| A (%s B))", "?(|A B| B (A %s ))"]
 ALIASES = [("!lt", "?ge"), ("!gt", "?le"), ("!eq", "?ne"), ("!ne", "?eq"), ("!ge", "?lt"), ("!le", "?gt")]
 
 
@@ -214,7 +217,7 @@ def run(chk):
     P = pool_core(rng, 0 if quick else 110) + pool_families() + pool_dwarf()
     specs = [p[0] for p in P]
     n = len(specs)
-    words = WORDS + ["?(|A B| (A %s B))" % op for op in INFIX]
+    words = WORDS + ["?(|A B| (A %s B))" % op for op in INFIX] + [f % op for op in HALF_INFIX for f in HALF_FORMS]
     pool = common.Pool()
     # ONE process computes the whole matrix: the order of unrelated values (different Dwarf handles,
     # different constant domains) is by object address, consistent only within a process.
@@ -279,6 +282,15 @@ def run(chk):
             for j in range(n):
                 if types[j] != "f" and mats[iw][i][j] != mats[w][i][j]:
                     bad("infix-disagrees:%s/%s" % (op, w), a=desc(i), b=desc(j)); break
+    for op, w in HALF_INFIX.items():
+        for f in HALF_FORMS:
+            iw = f % op
+            for i in range(n):
+                if types[i] == "f":
+                    continue
+                for j in range(n):
+                    if types[j] != "f" and mats[iw][i][j] != mats[w][i][j]:
+                        bad("infix-with-an-operand-left-out-disagrees:%s/%s" % (iw, w), a=desc(i), b=desc(j)); break
     for w, inv in (("?eq", "!eq"), ("?lt", "!lt"), ("?gt", "!gt")):
         for i in range(n):
             for j in range(n):
